@@ -9,7 +9,8 @@ Inductive obs :=
 | EvGather (all : bool) (k : nat) (exc : nat) (r : list (nat * Z * Z))  (* exc: 0 none, 1 ValueError(no jobs pending), 2 any other *)
 | EvClose (d c : list nat)                                           (* ids recorded DONE / CANCELLED by this close *)
 | EvDump (rows : list (nat * bool)) (pay : list (nat * Z * Z))   (* rows written: id, DONE?; payload cells of the DONE rows *)
-| EvSetMax (m : Z).
+| EvSetMax (m : Z)
+| EvSettle (g : list nat).      (* the harness let the loop run until idle: the run-functions of g have returned, their tasks are done *)
 
 (* observed counters after the call: num_jobs_submitted, num_jobs_gathered, len(_tasks_running) (or -1 = not observed) *)
 Definition counters := (Z * Z * Z)%type.
@@ -58,6 +59,7 @@ Definition accept_event (s : ev) (e : obs) : ev + nat :=
   | EvDump rows pay =>
       if same_rows rows (done_q s) && payload_ok s pay then inl (fst (dump s)) else inr 6
   | EvSetMax m => inl (set_max m s)
+  | EvSettle g => if subsetn g (tasks s) then inl (complete_group g s) else inr 2
   end.
 
 Definition counters_ok (s : ev) (c : counters) : bool :=
